@@ -12,7 +12,7 @@ from k1 import Unit
 #                 (hop_stoppable = false): the variant all theorems are proved for.  Switch to this
 #                 once /repo carries the fix; on an unfixed tree it additionally reports the
 #                 correspondence break at the hop (the scheduler's read of the stop state).
-MODEL_VARIANT = "as_written"
+MODEL_VARIANT = "fixed"
 MODEL_VARIANT = os.environ.get("VERIF_C16PASS_VARIANT", MODEL_VARIANT)   # development override only
 
 
